@@ -1,10 +1,22 @@
-// Executor for C09: registers a generated (method, pattern) table on
-// router.NewRouter() and sends generated requests through ServeHTTP, reporting
-// which handler ran, pathvar.Vars, status code, Allow header (sorted set),
-// registration errors and path.Clean of every pattern / request path.
+// Executor for C09.
+//
+// kind "router": registers a generated (method, pattern) table on router.NewRouter() and sends
+// generated requests through ServeHTTP.
+//
+// kind "server": the route tables are the slices the user wrote (one backing array per table);
+// a sequence of events mounts them (the same slice value, or sub-slices of it, any number of
+// times, on any of several rest.Server instances, through AddRoutes or AddRoute, with route
+// options in a given order) and starts the servers (engine.bindRoutes -> router.Handle);
+// requests are then sent to the http.Handler each server would listen with.
+//
+// Reported per request: which handler ran, pathvar.Vars, middleware tags seen, status code,
+// Allow header (split on ',', trimmed, sorted), the URL.Path the server derived from the request
+// target and path.Clean of it.  Reported per case: registration error classes, path.Clean of
+// every pattern, Server.Routes(), how Start ended, and the user's tables after registration.
 package main
 
 import (
+	"bufio"
 	"context"
 	"errors"
 	"fmt"
@@ -15,41 +27,62 @@ import (
 	"strings"
 	"time"
 
+	"github.com/golang-jwt/jwt/v4"
 	"github.com/zeromicro/go-zero/core/logx"
 	"github.com/zeromicro/go-zero/rest"
+	"github.com/zeromicro/go-zero/rest/chain"
 	"github.com/zeromicro/go-zero/rest/pathvar"
 	"github.com/zeromicro/go-zero/rest/router"
 	"verifh/hx"
 )
 
+const jwtSecret = "c09-secret-0123456789"
+
 type Case struct {
 	ID   int         `json:"id"`
 	Kind string      `json:"kind"` // "" / "router": router.NewRouter(); "server": rest.NewServer
-	NF   bool        `json:"nf"`   // install a custom not-found handler
-	NA   bool        `json:"na"`   // install a custom not-allowed handler
+	NF   bool        `json:"nf"`   // router kind: install a custom not-found handler
+	NA   bool        `json:"na"`   // router kind: install a custom not-allowed handler
 	Regs [][2]string `json:"regs"`
-	Reqs [][2]string `json:"reqs"`
+	// requests: router kind [method, target, mode]; server kind [server, method, target, mode]
+	// mode "path": URL.Path := target; mode "raw": the request line is parsed by http.ReadRequest
+	Reqs [][]string `json:"reqs"`
 	// server kind
-	Cors   bool    `json:"cors"` // rest.WithCors()
-	Use    bool    `json:"use"`  // server.Use(global middleware)
-	Groups []Group `json:"groups"`
+	Tables  [][][2]string `json:"tables"`
+	Servers []ServerCfg   `json:"servers"`
+	Events  []Event       `json:"events"`
 }
 
-// Group is one AddRoutes call.
-type Group struct {
-	Prefix *string     `json:"prefix"` // nil: no WithPrefix option
-	MW     bool        `json:"mw"`     // routes wrapped with rest.WithMiddlewares
-	Opts   bool        `json:"opts"`   // harmless extra options (timeout, max bytes, priority)
-	Single bool        `json:"single"` // use AddRoute per route
-	Routes [][2]string `json:"routes"`
+type ServerCfg struct {
+	NF     bool `json:"nf"`     // rest.WithNotFoundHandler
+	NA     bool `json:"na"`     // rest.WithNotAllowedHandler
+	Cors   bool `json:"cors"`   // rest.WithCors()
+	Use    bool `json:"use"`    // server.Use(tag 1000)
+	Chain  bool `json:"chain"`  // rest.WithChain(chain.New(tag 2000))
+	Native bool `json:"native"` // the built-in middlewares of RestConf.Middlewares switched on
+	Must   bool `json:"must"`   // rest.MustNewServer instead of rest.NewServer
+}
+
+// Event is one step of the registration sequence.
+type Event struct {
+	Ev     string     `json:"ev"` // "mount" | "start"
+	Server int        `json:"server"`
+	Table  int        `json:"table"`
+	Lo     int        `json:"lo"`
+	Hi     int        `json:"hi"`
+	Single bool       `json:"single"` // AddRoute per route instead of AddRoutes
+	MW     bool       `json:"mw"`     // rest.WithMiddlewares([tag = index of the event], routes...)
+	Tag    int        `json:"tag"`
+	Opts   [][]string `json:"opts"` // ["prefix", p] | ["timeout"] | ["maxbytes"] | ["priority"] | ["sse"] | ["jwt"]
 }
 
 type Res struct {
-	K      string      `json:"k"` // h | na | nf | nac | nfc | panic | other
+	K      string      `json:"k"` // h | na | nf | nac | nfc | cors204 | badreq | panic | other
 	H      int         `json:"h"`
 	Vars   [][2]string `json:"vars"`
 	Allow  []string    `json:"allow"`
 	Status int         `json:"status"`
+	Path   string      `json:"path"` // r.URL.Path as the server sees it
 	Clean  string      `json:"clean"`
 	MWs    []int       `json:"mws"` // middleware tags seen by the handler, outermost first
 	Note   string      `json:"note,omitempty"`
@@ -61,9 +94,10 @@ type Out struct {
 	PClean []string `json:"pclean"`
 	Res    []Res    `json:"res"`
 	Err    string   `json:"err,omitempty"`
-	// server kind
-	Start  int         `json:"start"`  // 0 routes bound, else class of the error Start died with
-	Routes [][2]string `json:"routes"` // server.Routes()
+	// server kind, one entry per server
+	Starts      []int         `json:"starts"`       // 0 routes bound, else class of the error Start died with; -1 never started
+	Routes      [][][2]string `json:"routes"`       // server.Routes() after the last event
+	TablesAfter [][][2]string `json:"tables_after"` // the user's slices after the last event
 }
 
 type ran struct {
@@ -130,9 +164,7 @@ func (st *state) notAllowed() http.Handler {
 	})
 }
 
-// buildServer registers the groups on a real rest.Server and lets Start bind them to the
-// router; the listen address is made impossible so that Start returns right after binding.
-func buildServer(c Case, st *state, out *Out) http.Handler {
+func newServer(c ServerCfg, st *state) (*rest.Server, error) {
 	var opts []rest.RunOption
 	if c.NF {
 		opts = append(opts, rest.WithNotFoundHandler(st.notFound()))
@@ -143,6 +175,11 @@ func buildServer(c Case, st *state, out *Out) http.Handler {
 	if c.Cors {
 		opts = append(opts, rest.WithCors())
 	}
+	if c.Chain {
+		opts = append(opts, rest.WithChain(chain.New(func(next http.Handler) http.Handler {
+			return tagMW(2000)(next.ServeHTTP)
+		})))
+	}
 	var conf rest.RestConf
 	conf.Name = "c09"
 	conf.Host = "127.0.0.1"
@@ -150,47 +187,52 @@ func buildServer(c Case, st *state, out *Out) http.Handler {
 	conf.Log.Mode = "console"
 	conf.Log.Encoding = "plain"
 	conf.Mode = "test"
-	srv, err := rest.NewServer(conf, opts...)
-	if err != nil {
-		out.Err = "NewServer: " + err.Error()
-		return nil
+	if c.Native {
+		conf.MaxConns = 10000
+		conf.MaxBytes = 1 << 20
+		conf.Timeout = 3000
+		conf.Middlewares.Trace = true
+		conf.Middlewares.Log = true
+		conf.Middlewares.Prometheus = true
+		conf.Middlewares.MaxConns = true
+		conf.Middlewares.Breaker = true
+		conf.Middlewares.Shedding = true
+		conf.Middlewares.Timeout = true
+		conf.Middlewares.Recover = true
+		conf.Middlewares.Metrics = true
+		conf.Middlewares.MaxBytes = true
+		conf.Middlewares.Gunzip = true
 	}
-	logx.Disable()
-	if c.Use {
-		srv.Use(tagMW(1000))
+	if c.Must {
+		return rest.MustNewServer(conf, opts...), nil
 	}
-	h := 0
-	for gi, g := range c.Groups {
-		var rs []rest.Route
-		for _, r := range g.Routes {
-			rs = append(rs, rest.Route{Method: r[0], Path: r[1], Handler: st.handler(h)})
-			h++
-		}
-		if g.MW {
-			rs = rest.WithMiddlewares([]rest.Middleware{tagMW(gi)}, rs...)
-		}
-		var ro []rest.RouteOption
-		if g.Opts {
-			ro = append(ro, rest.WithTimeout(3*time.Second), rest.WithMaxBytes(1<<20))
-		}
-		if g.Prefix != nil {
-			ro = append(ro, rest.WithPrefix(*g.Prefix))
-		}
-		if g.Opts {
+	return rest.NewServer(conf, opts...)
+}
+
+func routeOpts(ev Event) []rest.RouteOption {
+	var ro []rest.RouteOption
+	for _, o := range ev.Opts {
+		switch o[0] {
+		case "prefix":
+			ro = append(ro, rest.WithPrefix(o[1]))
+		case "timeout":
+			ro = append(ro, rest.WithTimeout(3*time.Second))
+		case "maxbytes":
+			ro = append(ro, rest.WithMaxBytes(1<<20))
+		case "priority":
 			ro = append(ro, rest.WithPriority())
-		}
-		if g.Single {
-			for _, r := range rs {
-				srv.AddRoute(r, ro...)
-			}
-		} else {
-			srv.AddRoutes(rs, ro...)
+		case "sse":
+			ro = append(ro, rest.WithSSE())
+		case "jwt":
+			ro = append(ro, rest.WithJwt(jwtSecret))
 		}
 	}
-	out.Routes = [][2]string{}
-	for _, r := range srv.Routes() {
-		out.Routes = append(out.Routes, [2]string{r.Method, r.Path})
-	}
+	return ro
+}
+
+// startServer lets Start bind the routes to the router; the listen address is made impossible
+// so that Start returns right after binding.
+func startServer(srv *rest.Server) (http.Handler, int) {
 	var handler http.Handler
 	var serr error
 	func() {
@@ -208,31 +250,137 @@ func buildServer(c Case, st *state, out *Out) http.Handler {
 			s.Addr = "127.0.0.1:-1"
 		})
 	}()
-	out.Start = regErr(serr)
+	cls := regErr(serr)
 	if serr == nil {
-		out.Start = 4 // Start returned without error: impossible with this address
+		cls = 4 // Start returned without error: impossible with this address
 	}
-	if out.Start != 0 {
-		return nil
+	if cls != 0 {
+		return nil, cls
 	}
-	return handler
+	return handler, 0
 }
 
-func runCase(c Case) (out Out) {
+func pairs(rs []rest.Route) [][2]string {
+	out := [][2]string{}
+	for _, r := range rs {
+		out = append(out, [2]string{r.Method, r.Path})
+	}
+	return out
+}
+
+// buildServers plays the registration sequence; returns the handler of every started server.
+func buildServers(c Case, st *state, out *Out) []http.Handler {
+	// the route tables as the user wrote them: one slice (one backing array) per table
+	tables := make([][]rest.Route, len(c.Tables))
+	h := 0
+	for i, t := range c.Tables {
+		tables[i] = make([]rest.Route, 0, len(t))
+		for _, r := range t {
+			tables[i] = append(tables[i], rest.Route{Method: r[0], Path: r[1], Handler: st.handler(h)})
+			h++
+		}
+	}
+	servers := make([]*rest.Server, len(c.Servers))
+	handlers := make([]http.Handler, len(c.Servers))
+	out.Starts = make([]int, len(c.Servers))
+	for i, sc := range c.Servers {
+		srv, err := newServer(sc, st)
+		if err != nil {
+			out.Err = "NewServer: " + err.Error()
+			return nil
+		}
+		logx.Disable()
+		if sc.Use {
+			srv.Use(rest.ToMiddleware(func(next http.Handler) http.Handler {
+				return tagMW(1000)(next.ServeHTTP)
+			}))
+		}
+		servers[i] = srv
+		out.Starts[i] = -1
+	}
+	for _, ev := range c.Events {
+		srv := servers[ev.Server]
+		switch ev.Ev {
+		case "mount":
+			rs := tables[ev.Table][ev.Lo:ev.Hi]
+			if ev.MW {
+				rs = rest.WithMiddlewares([]rest.Middleware{tagMW(ev.Tag)}, rs...)
+			}
+			ro := routeOpts(ev)
+			if ev.Single {
+				for _, r := range rs {
+					srv.AddRoute(r, ro...)
+				}
+			} else {
+				srv.AddRoutes(rs, ro...)
+			}
+		case "start":
+			if out.Starts[ev.Server] == -1 {
+				handlers[ev.Server], out.Starts[ev.Server] = startServer(srv)
+			}
+		}
+	}
+	for _, srv := range servers {
+		out.Routes = append(out.Routes, pairs(srv.Routes()))
+	}
+	for _, t := range tables {
+		out.TablesAfter = append(out.TablesAfter, pairs(t))
+	}
+	return handlers
+}
+
+func makeRequest(method, target, mode string) (*http.Request, error) {
+	if mode == "raw" {
+		// exactly what net/http's server does with the request line
+		req, err := http.ReadRequest(bufio.NewReader(strings.NewReader(
+			method + " " + target + " HTTP/1.1\r\nHost: c09\r\n\r\n")))
+		if err != nil {
+			return nil, err
+		}
+		return req, nil
+	}
+	req := httptest.NewRequest(http.MethodGet, "/", nil)
+	req.Method = method
+	req.URL.Path = target
+	req.RequestURI = target
+	return req, nil
+}
+
+func bearer() string {
+	tok := jwt.NewWithClaims(jwt.SigningMethodHS256, jwt.MapClaims{"iat": time.Now().Unix(), "exp": time.Now().Add(time.Hour).Unix()})
+	s, err := tok.SignedString([]byte(jwtSecret))
+	if err != nil {
+		hx.Fatal("jwt: %v", err)
+	}
+	return s
+}
+
+func runCase(c Case, token string) (out Out) {
 	out.ID = c.ID
 	out.RegErr = []int{}
 	out.PClean = []string{}
 	out.Res = []Res{}
 	st := &state{}
-	var rt http.Handler
-	if c.Kind == "server" {
-		rt = buildServer(c, st, &out)
-		if rt == nil {
+	var handlers []http.Handler
+	server := c.Kind == "server"
+	if server {
+		func() {
+			defer func() {
+				if p := recover(); p != nil {
+					out.Err = fmt.Sprintf("registration panicked: %v", p)
+				}
+			}()
+			handlers = buildServers(c, st, &out)
+		}()
+		if handlers == nil {
+			if out.Err == "" {
+				out.Err = "no handlers"
+			}
 			return out
 		}
 	} else {
 		prt := router.NewRouter()
-		rt = prt
+		handlers = []http.Handler{prt}
 		if c.NF {
 			prt.SetNotFoundHandler(st.notFound())
 		}
@@ -254,13 +402,36 @@ func runCase(c Case) (out Out) {
 		}
 	}
 	for _, rq := range c.Reqs {
+		si := 0
+		if server {
+			fmt.Sscanf(rq[0], "%d", &si)
+			rq = rq[1:]
+		}
+		mode := "path"
+		if len(rq) > 2 {
+			mode = rq[2]
+		}
 		st.runs = nil
 		st.custom = ""
-		res := Res{Vars: [][2]string{}, Allow: []string{}, MWs: []int{}, Clean: path.Clean(rq[1])}
-		req := httptest.NewRequest(http.MethodGet, "/", nil)
-		req.Method = rq[0]
-		req.URL.Path = rq[1]
-		req.RequestURI = rq[1]
+		res := Res{Vars: [][2]string{}, Allow: []string{}, MWs: []int{}}
+		rt := handlers[si]
+		if rt == nil {
+			res.K = "down" // this server did not start
+			out.Res = append(out.Res, res)
+			continue
+		}
+		req, err := makeRequest(rq[0], rq[1], mode)
+		if err != nil {
+			res.K = "badreq"
+			res.Note = err.Error()
+			out.Res = append(out.Res, res)
+			continue
+		}
+		if server {
+			req.Header.Set("Authorization", "Bearer "+token)
+		}
+		res.Path = req.URL.Path
+		res.Clean = path.Clean(req.URL.Path)
 		w := httptest.NewRecorder()
 		panicked := false
 		func() {
@@ -276,10 +447,11 @@ func runCase(c Case) (out Out) {
 		allow, hasAllow := w.Header()["Allow"]
 		runs, custom := st.runs, st.custom
 		cors := w.Header().Get("Access-Control-Allow-Origin") != ""
+		wantCors := server && c.Servers[si].Cors
 		switch {
 		case panicked:
 			res.K = "panic"
-		case cors && !c.Cors, !cors && c.Cors:
+		case cors != wantCors:
 			res.K = "other"
 			res.Note = "CORS headers do not match the option"
 		case len(runs) == 0 && custom == "" && cors && w.Code == 204 && !hasAllow:
@@ -300,8 +472,9 @@ func runCase(c Case) (out Out) {
 			res.K = "nf"
 		case len(runs) == 0 && custom == "" && w.Code == 405 && len(allow) == 1:
 			res.K = "na"
-			for _, m := range strings.Split(allow[0], ", ") {
-				res.Allow = append(res.Allow, m)
+			// an HTTP list: elements separated by commas, optional whitespace
+			for _, m := range strings.Split(allow[0], ",") {
+				res.Allow = append(res.Allow, strings.TrimSpace(m))
 			}
 			sort.Strings(res.Allow)
 		default:
@@ -318,7 +491,8 @@ func main() {
 	hx.ReadCases(&cases)
 	w := hx.NewWriter()
 	defer w.Close()
+	token := bearer()
 	for _, c := range cases {
-		w.Put(runCase(c))
+		w.Put(runCase(c, token))
 	}
 }
